@@ -648,17 +648,29 @@ def subst_params(t, mapping):
     return map_term(t, f)
 
 
-def _outer_elems(t):
+def _outer_elems(t, _bound=frozenset()):
     """iterables of the elem(...) terms of t that are not nested inside
-    another elem's iterable"""
+    another elem's iterable and are not the loop variables of a
+    comprehension inside t"""
     if not isinstance(t, tuple) or not t:
         return
     if t[0] in ("elem", "idx") and len(t) == 2:
-        yield t[1]
+        if t[1] not in _bound:
+            yield t[1]
+        return
+    if t[0] == "comp" and len(t) >= 4 and isinstance(t[3], tuple):
+        b = set(_bound)
+        for g in t[3]:
+            if isinstance(g, tuple) and len(g) >= 2:
+                yield from _outer_elems(g[1], frozenset(b))
+                b.add(g[1])
+                for c in (g[2] if len(g) > 2 else ()):
+                    yield from _outer_elems(c, frozenset(b))
+        yield from _outer_elems(t[2], frozenset(b))
         return
     for x in t:
         if isinstance(x, tuple):
-            yield from _outer_elems(x)
+            yield from _outer_elems(x, _bound)
 
 
 def apply_partials(t):
@@ -771,6 +783,20 @@ def expand_const_comp(t):
                 return ("list", tuple(
                     map_term(x[2], lambda z, c=c: c if z == el else z)
                     for c in it[1]))
+        if x[0] == "comp" and x[1] == "dict" and len(x[3]) == 1 and \
+                not x[3][0][2] and x[2][0] == "tuple" and len(x[2][1]) == 2:
+            # {k(c): v(c) for c in (a, b)}  ->  {k(a): v(a), k(b): v(b)}
+            it = x[3][0][1]
+            if it[0] in ("tuple", "list") and it[1] and all(
+                    c[0] == "const" for c in it[1]):
+                el = ("elem", it)
+                ks, vs = [], []
+                for c in it[1]:
+                    ks.append(map_term(x[2][1][0],
+                                       lambda z, c=c: c if z == el else z))
+                    vs.append(map_term(x[2][1][1],
+                                       lambda z, c=c: c if z == el else z))
+                return ("dict", tuple(ks), tuple(vs))
         return x
     return merge_fstr(map_term(t, f))
 
@@ -814,3 +840,23 @@ def norm_logic(t):
 def normalise(t):
     """The standard normal form used before structural comparison."""
     return simp(items_as_subs(expand_const_comp(fuse_comps(norm_logic(t)))))
+
+
+def module_constants(prog, t):
+    """Replace references to module-level names that are bound once, to a
+    literal constant, by that constant."""
+    import ast as _ast
+
+    def f(x):
+        if x[0] == "name" and isinstance(x[1], str) and "." in x[1]:
+            mod, _, nm = x[1].rpartition(".")
+            m = prog.modules.get(mod)
+            if m is not None:
+                v = m.assigns.get(nm)
+                stores = sum(1 for n in _ast.walk(m.tree)
+                             if isinstance(n, _ast.Name) and n.id == nm
+                             and isinstance(n.ctx, _ast.Store))
+                if isinstance(v, _ast.Constant) and stores == 1:
+                    return ("const", v.value)
+        return x
+    return map_term(t, f)
